@@ -618,6 +618,10 @@ _ADD10 = {
             " GAPFILL (LINBUF) also covers the insert functions: the area they return for the caller to fill counts as written, every other byte by which the used length grew (the gap in front of an insert behind the end) was written by the call. DETACHRELEASE: where a detach implementation answers with another buffer, every path to that return released the caller's reference to the old one (mpt_refcount_lower / free / unref)."),
     "C06": ([{"run": rules_path.run_lazyread, "floor": 5, "use_anchor_files": True}],
             " LAZYREAD: a table pointer that is created on first use is read only behind a first-use test of that table in the same function (or in front of every call of a file-local helper); a reader that merely skips its work while the table does not exist depends on the order of the first lookups."),
+    "C09": ([{"run": rules_types.run_sentineluse, "floor": 2}],
+            " SENTINELUSE: a narrow member that its module stores as (v > MAX) ? 0 : v (path.first: 0 stands for 'does not fit, search again') is used as a number only in the files that contain such stores; elsewhere it is compared or assigned, never taken for the length."),
+    "C08": ([{"run": rules_types.run_sentineluse, "floor": 2}], " SENTINELUSE (see C09)."),
+    "C10": ([{"run": rules_types.run_sentineluse, "floor": 2}], " SENTINELUSE (see C09)."),
     "C11": ([{"run": rules_event.run_scanall, "floor": 3, "use_anchor_files": True}],
             " SCANALL: a walk over handler slots is not left because the slot at hand is empty, unless that empty slot is what the function delivers or fills (tables have holes after an unregistration)."),
     "C13": ([{"run": rules_path.run_maxstore, "floor": 3, "use_anchor_files": True}],
